@@ -52,7 +52,11 @@ def main_cases(draw, tier, base=None):
         other = draw(st.sampled_from([v2, ('tun', 'always', 0, draw(st.integers(0, 2)), v2), ('const', 1.0), ('un', 'abs', v2)]))
         if fut[0] == 'un' and other[0] == 'tun':
             other = v2
-        term = draw(st.sampled_from([('bin', '-', fut, other), ('bin', '-', other, fut), ('un', 'abs', ('bin', '-', fut, other)), ('bin', '+', fut, other), fut]))
+        one = ('const', 1.0)
+        term = draw(st.sampled_from([('bin', '-', fut, other), ('bin', '-', other, fut), ('un', 'abs', ('bin', '-', fut, other)), ('bin', '+', fut, other), fut,
+                                     # look-ahead in the second argument of a two-place function (and in the first)
+                                     ('bin', 'pow', ('bin', '+', ('un', 'abs', v2), one), fut), ('bin', 'pow', ('bin', '+', ('un', 'abs', fut), one), v2),
+                                     ('bin', 'log', ('bin', '+', ('un', 'abs', v2), ('const', 2.0)), ('bin', '+', ('un', 'abs', fut), ('const', 2.0)))]))
         g = ('pred', draw(st.sampled_from(['<=', '>=', '<', '>'])), term, ('const', draw(st.sampled_from([0.0, 1.0, 2.0]))))
         k = draw(st.integers(0, 3))
         f = [g, ('bin', draw(st.sampled_from(['and', 'or', 'implies'])), g, f), ('tun', draw(st.sampled_from(['always', 'eventually'])), 0, draw(st.integers(0, 2)), g),
@@ -160,6 +164,29 @@ def classify(f):
     return cls
 
 
+KNOWN_WARMUP_RAISES = 'raises-during-warm-up:partial-function-over-delayed-operand'
+WARMUP_SITES = ('log_operation.py', 'ln_operation.py', 'sqrt_operation.py')
+
+
+def guarded_updates(text, feed, w, times, tcol):
+    """(outputs, indices of the updates that raised) of a pastified monitor whose caller catches the exceptions of update()."""
+    try:
+        spec = build('dt_on', text, feed, pastify=times)
+    except Exception:  # noqa
+        return None
+    outs, raised = [], set()
+    n = len(w[feed[0]])
+    for i in range(n):
+        try:
+            outs.append(spec.update(tcol[i] if tcol is not None else i, [(v, w[v][i]) for v in feed]))
+        except RecursionError:
+            raise
+        except Exception:  # noqa
+            outs.append(None)
+            raised.add(i)
+    return outs, raised
+
+
 def check_main(case):
     f = from_json(case['formula'])
     vs = list(case['vars'])
@@ -193,6 +220,16 @@ def check_main(case):
         labels.append('time-stamps:' + case.get('time_kind', 'given'))
         text = text + '   [time stamps of the updates: %s]' % (tcol,)
     o = run_dt_on(text.split('   [')[0], feed, w, pastify=times, time=tcol)
+    warm = None
+    if o[0] != 'ok' and h >= 1 and o[4].split(':')[0].endswith(WARMUP_SITES):
+        # open finding: a partial function applied to an operand that pastify() delays reads the -inf of the delay line during
+        # the first updates and raises. The caller may catch that; the run is repeated with every update guarded
+        warm = guarded_updates(text.split('   [')[0], feed, w, times, tcol)
+    if warm is not None and warm[1] and min(warm[1]) < h:
+        later = [i for i in range(h, n) if warm[0][i] is None or not same(warm[0][i], refs[i], needs_tolerance(f))]
+        return FAIL(KNOWN_WARMUP_RAISES, 'spec: %s (horizon %d)\ntrace: %s\nthe pastified monitor raised %s (%s) at update(s) %s, the first of them before the horizon; a caller that catches the exception gets %s, '
+                    'expected from update %d on: %s%s' % (text, h, w, o[1], o[3], sorted(warm[1]), warm[0], h, fmt_vals([refs[i] for i in range(h, n)]),
+                                                        ' (the update that raised left the delay lines of the other operands one step behind)' if later else ''), labels + ['raises-during-warm-up'])
     if o[0] != 'ok':
         return FAIL('exc:%s@%s' % (o[1], o[4]), 'spec: %s (horizon %d)\ntrace: %s\npastified monitor raised %s: %s at %s' % (
             text, h, w, o[1], o[3], o[4]), labels)
